@@ -1740,13 +1740,19 @@ func (s *BgpServer) handleFSMMessage(peer *peer, e *fsmMsg) {
 				// if it is in adj-rib-out, do withdrawal
 				s.propagateUpdate(peer, pathList)
 
+				if len(llgr) == 0 {
+					// no family is covered by LLGR: nothing is retained and no
+					// timer will ever end the restarting state
+					peer.stopPeerRestarting()
+				}
 				for _, f := range llgr {
 					endCh := make(chan struct{})
 					peer.fsm.lock.Lock()
 					peer.llgrEndChs = append(peer.llgrEndChs, endCh)
 					peer.fsm.lock.Unlock()
+					// mark every timer as running before any of them can expire
+					peer.llgrRestartTimerStarted(f)
 					go func(family bgp.Family, endCh chan struct{}) {
-						peer.llgrRestartTimerStarted(family)
 						t := peer.llgrRestartTime(family)
 						timer := time.NewTimer(time.Second * time.Duration(t))
 
@@ -1757,12 +1763,19 @@ func (s *BgpServer) handleFSMMessage(peer *peer, e *fsmMsg) {
 							err := s.mgmtOperation(func() error {
 								peer.fsm.logger.Info("LLGR restart timer expired", slog.String("Family", family.String()), slog.Any("Duration", t))
 
-								s.dropAdjRIBIn(peer, []bgp.Family{family})
+								// Only the stale routes die with the timer: if the peer
+								// is back and still synchronizing, the routes it has
+								// re-announced are fresh.
+								dropped := peer.adjRibIn.DropStale([]bgp.Family{family})
 
-								// when all llgr restart timer expired, stop PeerRestarting
+								// when all llgr restart timer expired, stop PeerRestarting;
+								// no stale route may outlive the last timer
 								if peer.llgrRestartTimerExpired(family) {
 									peer.stopPeerRestarting()
+									dropped = append(dropped, peer.adjRibIn.DropStale(peer.configuredRFlist())...)
 								}
+								s.notifyAdjInWithdrawWatcher(peer, dropped)
+								s.propagateUpdate(peer, dropped)
 								return nil
 							}, false)
 							if err != nil {
